@@ -27,6 +27,9 @@ RULE = ('LIST: pattern sequences over {a, b, ..., M(t=...), M(t=a), MTAG(t), MAN
         'PRODUCTS (deterministic): a tree with every primitive kind in every primitive position (bytes of 2+ bytes, large '
         'ints, float, complex, None, Ellipsis, bool, str, identifiers, level, conversion) vs the pattern from an independent '
         'parse and from a deep copy with fresh equal leaf objects, node by node, and search with hand-written constants; '
+        'lists of identifiers (global, nonlocal, MatchClass kwd_attrs, import names, args) of 1-3 names incl. non-NFKC '
+        'spellings at every position vs the pattern from their own parse and from every single-position variant (sibling '
+        'value, first/last name, new name, normalised spelling, swaps), judged by ast.dump equality; '
         'None / MMAYBE patterns vs every falsy value; MQ constructor bounds vs re {m,n}; views '
         '(slices of Compare/Dict/MatchMapping/arguments._all) as patterns vs the copies of all slices; the documented '
         'single-argument rules of Marguments(_all=[...]) (kind x _strict x default spec x target). '
